@@ -102,7 +102,7 @@ fn survivors(text: &[&str], defined: &[char]) -> Result<Vec<Vec<usize>>, String>
 }
 
 pub fn run() -> i32 {
-    let mut rep = Report::new("preproc", "conditionals with <= 3 sections (if/elif/elif) + optional else over 6 conditions, bodies from a family of 8 blocks incl. one nested level, and every subset of the sections EMPTY, x 4 external symbol sets; two-file isolation: first file = every sequence of <= 3 #define/#undef over 3 symbols; 56 malformed / unbalanced directive forms (every operator spelling over {&,|} of length <= 3) and 5 well-formed controls x 3 symbol sets");
+    let mut rep = Report::new("preproc", "conditionals with <= 3 sections (if/elif/elif) + optional else over 6 conditions, bodies from a family of 8 blocks incl. one nested level, and every subset of the sections EMPTY, x 4 external symbol sets; two-file isolation: first file = every sequence of <= 3 #define/#undef over 3 symbols; 56 malformed / unbalanced directive forms (every operator spelling over {&,|} of length <= 3) and 5 well-formed controls x 3 symbol sets; positions: 3 directive indentations x 4 x 4 line indentations x 2 symbol sets, every surviving struct / field identifier and one diagnostic at its original line and column");
     let conds = [Cond::A, Cond::NotA, Cond::B, Cond::AandB, Cond::AorB, Cond::NotAorB];
     let ext: [&[char]; 4] = [&[], &['A'], &['B'], &['A', 'B']];
     let mut programs: Vec<Vec<Item>> = vec![];
@@ -216,6 +216,54 @@ pub fn run() -> i32 {
             match std::panic::catch_unwind(move || slicec::compile_from_strings(&[&t2], Some(&options)).diagnostics.has_errors()) {
                 Err(_) => rep.counterexample(&format!("-D{e:?} {text:?}"), "a verdict", "PANIC"),
                 Ok(errs) => if errs == *ok { rep.counterexample(&format!("-D{e:?} {text:?}"), if *ok { "accepted: the directives are well-formed" } else { "a syntax error: the directive is malformed or unbalanced" }, if errs { "rejected" } else { "accepted silently" }); },
+            }
+        }
+    }
+    // ---- nothing shifts: every surviving identifier, and a diagnostic in a selected region, is at its ORIGINAL line and column --
+    //      directives and the lines after them indented differently; selected and unselected sections of different lengths
+    {
+        let dir_indents = ["", "  ", "\t"];
+        let line_indents = ["", "    ", "\t", " \t "];
+        for di in dir_indents {
+            for li in line_indents {
+                for li2 in line_indents {
+                    for e in [&[][..], &['A'][..]] {
+                        let text = format!("module M\n{di}#if A\n{li}struct InA {{ a: bool }}\n{li2}struct InA2 {{}}\n{di}#else\n{li2}struct NotA {{\n{li}b: bool\n}}\n{di}#endif\n{li}struct After {{ c: Missing, d: bool }}\n{di}#if !A\n{di}#define B\n{di}#endif\n{li2}  struct Last {{ e: bool }}\n");
+                        let label = format!("positions: -D{e:?} {text:?}");
+                        rep.case(true, || label.clone());
+                        let mut options = SliceOptions::default();
+                        options.defined_symbols = e.iter().map(|c| c.to_string()).collect();
+                        let t2 = text.clone();
+                        let out = std::panic::catch_unwind(move || {
+                            use slicec::grammar::{NamedSymbol, Symbol};
+                            let state = slicec::compile_from_strings(&[&t2], Some(&options));
+                            let mut problems = vec![];
+                            let mut names = vec![];
+                            for d in &state.files[0].contents {
+                                if let slicec::grammar::Definition::Struct(s) = d {
+                                    let s = s.borrow();
+                                    names.push(s.identifier().to_owned());
+                                    if crate::oracle_spans::text_at(&t2, s.raw_identifier().span()).as_deref() != Some(s.identifier()) { problems.push(format!("struct {}: the text at its identifier's span is {:?}", s.identifier(), crate::oracle_spans::text_at(&t2, s.raw_identifier().span()))); }
+                                    if !crate::oracle_spans::text_at(&t2, s.span()).is_some_and(|t| t.starts_with("struct ")) { problems.push(format!("struct {}: the text at its span is {:?}", s.identifier(), crate::oracle_spans::text_at(&t2, s.span()))); }
+                                    for f in s.fields() {
+                                        if crate::oracle_spans::text_at(&t2, f.raw_identifier().span()).as_deref() != Some(f.identifier()) { problems.push(format!("field {}: the text at its identifier's span is {:?}", f.identifier(), crate::oracle_spans::text_at(&t2, f.raw_identifier().span()))); }
+                                    }
+                                }
+                            }
+                            let diags: Vec<(String, Option<String>)> = state.diagnostics.into_inner().iter().map(|d| (d.code().to_owned(), d.span().and_then(|sp| crate::oracle_spans::text_at(&t2, sp)))).collect();
+                            (names, problems, diags)
+                        });
+                        match out {
+                            Err(_) => rep.counterexample(&label, "an AST", "PANIC"),
+                            Ok((names, problems, diags)) => {
+                                let want: Vec<&str> = if e.contains(&'A') { vec!["InA", "InA2", "After", "Last"] } else { vec!["NotA", "After", "Last"] };
+                                if names != want { rep.counterexample(&label, &format!("{want:?}"), &format!("{names:?}")); }
+                                else if !problems.is_empty() { rep.counterexample(&label, "every surviving element at its original line and column", &problems.join("; ")); }
+                                else if diags != vec![("E033".to_owned(), Some("Missing".to_owned()))] { rep.counterexample(&label, "one E033 whose span covers `Missing`", &format!("{diags:?}")); }
+                            }
+                        }
+                    }
+                }
             }
         }
     }
